@@ -133,6 +133,11 @@ Record state := mkState {
 Definition init : state :=
   mkState [] [] [] [] [] SRun false 0 0 [] [] [] [] [].
 
+(* a fresh Queue object over an existing store (process restart): empty timetable, no greenlets,
+   allocation counter and clock wherever the new process finds them *)
+Definition start_at (st : store) (nx : id) (c : time) : state :=
+  mkState st [] [] [] [] SRun false c nx [] [] [] [] [].
+
 (* ---------- queue helpers ---------- *)
 Fixpoint insort (e : time * id) (q : list (time * id)) : list (time * id) :=
   match q with
